@@ -622,6 +622,62 @@ impl Model {
                     }
                 }
             }
+            "SETBIT" => {
+                arity!(n == 4);
+                // Redis: offset and bit are validated before the key is looked up
+                let off = match string2ll(&a[2]) {
+                    Some(v) if (0..(1i64 << 32)).contains(&v) => v as usize,
+                    _ => return err("ERR"),
+                };
+                let bit = match string2ll(&a[3]) {
+                    Some(0) => 0u8,
+                    Some(1) => 1u8,
+                    _ => return err("ERR"),
+                };
+                let (byte, mask) = (off / 8, 0x80u8 >> (off % 8));
+                match self.typed(&a[1], "string") {
+                    Lookup::Wrong => err(WRONGTYPE),
+                    Lookup::Missing => {
+                        let mut s = vec![0u8; byte + 1];
+                        if bit == 1 {
+                            s[byte] |= mask;
+                        }
+                        self.set_str(&a[1], &s, false);
+                        int(0)
+                    }
+                    Lookup::Found(e) => {
+                        if let MVal::Str(s) = &mut e.val {
+                            if s.len() < byte + 1 {
+                                s.resize(byte + 1, 0);
+                            }
+                            let old = (s[byte] & mask != 0) as i64;
+                            if bit == 1 {
+                                s[byte] |= mask;
+                            } else {
+                                s[byte] &= !mask;
+                            }
+                            int(old)
+                        } else {
+                            unreachable!()
+                        }
+                    }
+                }
+            }
+            "GETBIT" => {
+                arity!(n == 3);
+                let off = match string2ll(&a[2]) {
+                    Some(v) if (0..(1i64 << 32)).contains(&v) => v as usize,
+                    _ => return err("ERR"),
+                };
+                match self.typed(&a[1], "string") {
+                    Lookup::Wrong => err(WRONGTYPE),
+                    Lookup::Missing => int(0),
+                    Lookup::Found(e) => match &e.val {
+                        MVal::Str(s) => int(s.get(off / 8).map(|b| (b & (0x80u8 >> (off % 8)) != 0) as i64).unwrap_or(0)),
+                        _ => unreachable!(),
+                    },
+                }
+            }
             "STRLEN" => {
                 arity!(n == 2);
                 match self.typed(&a[1], "string") {
